@@ -82,6 +82,28 @@ def _more(o, a, b):
         da.align([a, b], join="inner", sort=True)
     elif o == "stack_align_sort":
         da.stack([a, b], axis="k", align=True, sort=True)
+    elif o == "concatenate_axis_metadata":
+        # the joined axes carry different axis-level metadata: neither operand's axis may gain or lose an entry
+        b2 = b.copy()
+        b2.axes["x"].attrs["only_in_second"] = 1
+        b2.axes["y"].attrs["only_in_second_y"] = [2]
+        snap = deep_snapshot(b2)
+        da.concatenate([a, b2], axis="x")
+        da.concatenate([a, b2, a], axis="y", align=True)
+        da.stack([a, b2], axis="k", align=True)
+        if deep_snapshot(b2) != snap:
+            raise AssertionError("concatenate / stack changed the second operand")
+    elif o == "ds_reduce_axis":
+        c = a.sum(axis="y")
+        c.attrs.update(A.attrs_enc(5))
+        ds = _ds_of(a, a.copy() * 2)
+        ds["c"] = c                          # lacks y: passed through by reductions along y
+        snap, csnap = deep_snapshot(ds), deep_snapshot(c)
+        ds.reduce_axis(np.mean, axis="y")
+        ds.reduce_axis(np.take, indices=[0], axis="y", keepdims=True)
+        ds.reduce_axis(np.sum, axis="x", keepattrs=True)
+        if deep_snapshot(ds) != snap or deep_snapshot(c) != csnap:
+            raise AssertionError("Dataset.reduce_axis changed the Dataset it was applied to (or the array a variable was built from)")
     elif o == "concatenate_align":
         da.concatenate([a, b], axis="x", align=True)
     elif o == "broadcast_arrays":
